@@ -46,11 +46,17 @@ def pre (site : Gen.BackendSites.SiteId) (x : Atoms) : Bool :=
   | .mult_sec__libsecp256k1_pubkey_tweak_mul => served x && scalar1 x && point1 x
   | .sec_from_octets__libsecp256k1_pubkey_verify => served x && x.compressed_len
   -- dsa.py / ssa.py / bms.py
-  | .dsa_sign__libsecp256k1_sign => served x && x.hf_none_or_sha256 && scalar1 x && x.msg_sized
+  -- `pub_key=` is handed over as UNPROVEN octets (`_sec_from_pub_key`): the domain needs it proved, the guard does not say so
+  | .dsa_sign__libsecp256k1_sign => served x && x.hf_none_or_sha256 && scalar1 x && x.msg_sized && x.pub_key_proved
   | .dsa_sign_recoverable__sign => served x && x.hf_none_or_sha256 && scalar1 x && x.msg_sized
   | .dsa_assert_as_valid__verify => served x && x.hf_none_or_sha256 && x.sig_valid && x.msg_sized && point1 x
   | .dsa_recover_pub_keys__libsecp256k1_recover_point => served x && x.hf_none_or_sha256 && x.sig_valid && x.msg_sized
   | .dsa_recover_pub_key__libsecp256k1_recover_point => served x && x.hf_none_or_sha256 && x.sig_valid && x.msg_sized && x.key_id_0_3
+  | .dsa_signer_init__sec_from_pub_key => served x && x.hf_none_or_sha256 && scalar1 x && x.p1_on_curve
+  | .dsa_signer_init__new => served x && x.hf_none_or_sha256 && scalar1 x
+  | .dsa_signer_sign__delegated_sign => x.signer_held && x.msg_sized
+  | .ssa_signer_init__Signer => served x && x.hf_none_or_sha256 && scalar1 x
+  | .ssa_signer_sign__sign_custom => x.signer_held
   | .ssa_sign__sign_custom => served x && x.hf_none_or_sha256 && scalar1 x
   | .ssa_assert_as_valid__verify => served x && x.hf_none_or_sha256 && x.sig_valid && x.fields_sized && point1 x
   | .bms_assert_as_valid__libsecp256k1_recover_sec => x.flag && x.sig_valid
@@ -90,7 +96,7 @@ open Gen.BackendSites in
 over unproven on purpose (issue 887: the bindings' own parse is the proof) and the handler around the call is what
 answers outside the domain -/
 def handlerNeeded : List SiteId := [.multi_mult_x_only__libsecp256k1_multi_mult, .mult_sec__libsecp256k1_pubkey_tweak_mul,
-  .dsa_assert_as_valid__verify, .ssa_assert_as_valid__verify, .taproot_tweaked_pubkey__tweak_add,
+  .dsa_sign__libsecp256k1_sign, .dsa_assert_as_valid__verify, .ssa_assert_as_valid__verify, .taproot_tweaked_pubkey__tweak_add,
   .taproot_check_output_pubkey__tweak_add_check, .engine_dsa_verify__libsecp256k1_dsa_verify,
   .engine_ssa_verify__libsecp256k1_ssa_verify, .sp_output_keys__delegated_output_keys,
   .sp_scan_transaction_outputs__delegated_scan_outputs, .sp_delegated_scan_outputs__prevouts_summary,
@@ -101,13 +107,24 @@ def domainFrom (s : Gen.BackendSites.SiteId) : String :=
   if handlerNeeded.contains s then "handler" else if s.catches then "guard (handler present too)" else "guard"
 
 /-- the atom vector with every field true but the listed positions -/
-def allTrueBut (is : List Nat) : Atoms := Atoms.ofBits ((List.range 40).map fun i => !is.contains i)
+def allTrueBut (is : List Nat) : Atoms := Atoms.ofBits ((List.range 48).map fun i => !is.contains i)
 
 /-- inputs outside the domain that the guard lets through (one unproven fact at a time: key not proved on the curve,
 scalar not range-checked, fields not sized, terms not screened, signature / digest not validated) -/
 def outsideDomain : List Atoms :=
   let idx (n : String) : List Nat := (Gen.Backend.atomNames.idxOf? n).toList
   [allTrueBut (idx "p1_on_curve"), allTrueBut (idx "s1_in_1_n" ++ idx "s1_reduced"), allTrueBut (idx "fields_sized"),
-   allTrueBut (idx "all_terms_nonzero_finite"), allTrueBut (idx "sig_valid"), allTrueBut (idx "msg_sized")]
+   allTrueBut (idx "all_terms_nonzero_finite"), allTrueBut (idx "sig_valid"), allTrueBut (idx "msg_sized"),
+   allTrueBut (idx "pub_key_proved")]
+
+/-- sites that dispatch on an OBJECT built earlier (a tweak chain, a Signer) instead of asking the predicate again: the
+arm is captured at construction, so they keep delegating after `set_libsecp256k1_serving(serving=False)` (and keep to
+the Python arithmetic after `serving=True`).  Answers must not depend on that: harness oracle `held_object`. -/
+def heldObjectSites : List Gen.BackendSites.SiteId :=
+  [.tweak_chain_point__tweak_add, .dsa_signer_sign__delegated_sign, .ssa_signer_sign__sign_custom]
+
+/-- calls made INSIDE a delegation already decided (the dispatching caller asked the predicate) -/
+def insideSites : List Gen.BackendSites.SiteId :=
+  [.sp_delegated_scan_outputs__prevouts_summary, .sp_delegated_scan_outputs__scan_outputs]
 
 end Btc.C04
